@@ -602,6 +602,27 @@ func c03Levels(tier string) []core.Level {
 			}
 		}
 	}})
+	lv = append(lv, core.Level{Name: "two verbatim sections in one source whose end tags are spelled differently (7 spellings each, a comment / a print / text between them, alone and in every wrapper): each section ends at its own end tag", Gen: func(emit func(core.Case)) {
+		ends := []string{"{% endverbatim %}", "{%endverbatim%}", "{%- endverbatim %}", "{% endverbatim -%}", "{%-endverbatim-%}", "{%  endverbatim  %}", "{%\nendverbatim\n%}"}
+		for _, e1 := range ends {
+			for _, e2 := range ends {
+				for _, b := range []string{"a", "{{ x }}", "{# k #}"} {
+					s1, s2 := "{% verbatim %}"+b+e1, "{% verbatim %}c{% if %}"+e2
+					first, second := c03Code(s1, s1, b), c03Code(s2, s2, "c{% if %}")
+					for _, mid := range []c03Prog{c03Text("m"), c03Code("{# gone #}", "{#gone#}", ""), c03Code("{{ v }}", "{{v}}", "V")} {
+						two := c03Concat(first, c03Text("<"), mid, c03Text(">"), second, c03Text("z"))
+						c03Emit(emit, two, "verbatim-two")
+						for w := 0; w < c03Wrappers; w++ {
+							if w == 5 {
+								continue
+							}
+							c03Emit(emit, c03Concat(c03Text("["), c03Wrap(w, two, 1), c03Text("]")), "verbatim-two")
+						}
+					}
+				}
+			}
+		}
+	}})
 	nest3 := core8[:5]
 	if thorough(tier) {
 		nest3 = core8
